@@ -38,13 +38,32 @@ def diff_paths(a, b, path=()):
     return None
 
 
-def differential(spec, opts, absence, pause=None):
-    """simulate(absence=L); remove_absence_time_list()  vs  simulate(absence=[]); with pause=k the first run is stopped at step k and continued with the same list"""
+def differential(spec, opts, absence, pause=None, via_json=False, numpy_ints=False):
+    """simulate(absence=L); remove_absence_time_list()  vs  simulate(absence=[]); with pause=k the first run is stopped at step k and continued with the same list
+    (via_json: the stopped project is written to JSON and continued in a new project object); numpy_ints: the list holds numpy integers (a calendar built with numpy)"""
     m1 = runner.prepare(spec, opts)
     kw = runner.sim_kwargs(dict(opts, absence=list(absence)))
+    if numpy_ints:
+        import numpy
+
+        kw["absence_time_list"] = [numpy.int64(a) for a in absence]
     if pause is not None:
         m1.project.simulate(**dict(kw, max_time=pause))
         kw = dict(kw, initialize_state_info=False, initialize_log_info=False)
+        if via_json:
+            import os
+            import tempfile
+            from pDESy.model.base_project import BaseProject
+
+            fd, path = tempfile.mkstemp(prefix="verif-c10p-", suffix=".json")
+            os.close(fd)
+            try:
+                m1.project.write_simple_json(path)
+                p2 = BaseProject()
+                p2.read_simple_json(path)
+                m1 = S.adopt(p2)
+            finally:
+                os.unlink(path)
     m1.project.simulate(**kw)
     t_with = m1.project.time
     m1.project.remove_absence_time_list()
@@ -141,6 +160,22 @@ def work_diff(chunk):
                         if dp:
                             col.violation({"property": "C10", "sig": classify_diff(absence, pt, dp, opts.get("rule")) + ":run-stopped-and-continued", "kind": "diff", "spec": spec, "opts": opts, "absence": list(absence), "pause": k0,
                                            "detail": {"first_difference(path, after-remove, absence-free)": dp, "paused_at": k0}})
+                    # ... and continued in a new project object read from the JSON written at the stop; and the same list given as numpy integers
+                    for variant, vkw in (("continued-from-json", dict(pause=k0, via_json=True)), ("numpy-integer-list", dict(numpy_ints=True))):
+                        if len(absence) > 2:
+                            continue
+                        try:
+                            v1, _v2, vt = differential(spec, opts, absence, **vkw)
+                        except Exception as e:
+                            col.violation({"property": "C10", "sig": "C10:differential-raised:%s:%s" % (type(e).__name__, variant), "kind": "diff", "spec": spec, "opts": opts, "absence": list(absence), "variant": vkw, "detail": repr(e)})
+                            continue
+                        col.evaluations += 1
+                        col.checks["c10.differential-" + variant] += 1
+                        col.transitions.add(hash((key, absence, variant)))
+                        dv = diff_paths(logs_only(v1), b) if int(v1.project.status) == 1 else [("status", int(v1.project.status), 1)]
+                        if dv:
+                            col.violation({"property": "C10", "sig": classify_diff(absence, vt, dv, opts.get("rule")) + ":" + variant, "kind": "diff", "spec": spec, "opts": opts, "absence": list(absence), "variant": vkw,
+                                           "detail": {"first_difference(path, after-remove, absence-free)": dv}})
         if len(col.samples) < 2:
             col.samples.append({"spec": spec, "opts": opts, "absence_lists": "all subsets of size <= %d of steps 0..%d plus %s" % (maxlen, mk + 1, list(extra_idx))})
     return col
@@ -264,6 +299,14 @@ def replay(v):
     if v.get("kind") == "diff-load":
         col = work_diff([(v["spec"], v["opts"], 0, ())])
         return [x for x in col.violations if x.get("kind") == "diff-load" and x.get("absence") == v.get("absence")]
+    if v.get("kind") == "diff" and v.get("variant"):
+        vname = "continued-from-json" if v["variant"].get("via_json") else "numpy-integer-list"
+        try:
+            m1, m2, t_with = differential(v["spec"], v["opts"], v["absence"], **v["variant"])
+        except Exception as e:
+            return [{"sig": "C10:differential-raised:%s:%s" % (type(e).__name__, vname), "detail": repr(e)}]
+        d = diff_paths(logs_only(m1), logs_only(m2)) if int(m1.project.status) == 1 else [("status", int(m1.project.status), 1)]
+        return [{"sig": classify_diff(v["absence"], t_with, d, v["opts"].get("rule")) + ":" + vname, "detail": d}] if d else []
     if v.get("kind") == "diff":
         m1, m2, t_with = differential(v["spec"], v["opts"], v["absence"], pause=v.get("pause"))
         d = diff_paths(logs_only(m1), logs_only(m2))
